@@ -76,10 +76,6 @@ def hot_offsets(code):
     return frozenset(hot)
 
 
-class Aborted(BaseException):
-    pass
-
-
 class _FakeCode:
     def __init__(self, name):
         self.co_name = name
